@@ -245,6 +245,47 @@ def run(ctx):
     sc = ce.const("treewalkers/base.py", "spaceCharacters")
     r.check("R11.5", set(sc) == set("\t\n\x0c\r "), "space-set", "treewalkers/base.py", "walker white space is %r" % sc)
     clark_names(ctx)
+    void_agreement(ctx)
+
+
+def void_agreement(ctx):
+    """R11.7: the walkers write an element as a single EmptyTag token iff its name is in constants.voidElements, and report an
+    error token when such an element has children.  The parser therefore has to treat every one of these names as void: the
+    start-tag handler that inserts the element pops it again before returning (so it can never get children)."""
+    from .c01 import model
+    r = ctx.r
+    r.rule("R11.7", "every name in voidElements is handled as a void element by the parser (inserted and popped at once)", floor=14)
+    pm = model(ctx)
+    void = sorted(ctx.ce.const("constants.py", "voidElements"))
+    phases_for = {"col": "inColumnGroup"}
+    for name in void:
+        cls = pm.phases[phases_for.get(name, "inBody")]
+        h, how = pm.handler(cls, "StartTag", name)
+        if h is None:
+            r.bad("R11.7", "parser-void::%s" % name, cls.where, "no start-tag handler for <%s>" % name)
+            continue
+        nodes, edges, sites = pm.build_graph([(h, name)])
+        funcs = {f.fq: f for f, n_ in nodes.values()}
+        # some reachable function inserts the token's element and pops it on every path afterwards
+        popped = False
+        inserts = False
+        for f in funcs.values():
+            ins = [c for c in walk_no_nested(f.node) if isinstance(c, ast.Call) and (attr_chain(c.func) or [""])[-1] == "insertElement"]
+            if not ins:
+                continue
+            inserts = True
+            cfg = CFG(f.node)
+            for c in ins:
+                loc = cfg.locate(c)
+                if loc and not cfg.must_follow(loc, lambda x: any(
+                        (attr_chain(cc.func) or [""])[-2:] == ["openElements", "pop"] for cc in node_calls(x))):
+                    popped = True
+        ignored = not inserts          # the start tag is ignored in this mode: no element, no children
+        r.check("R11.7", popped or ignored, "parser-void::%s" % name, h.where,
+                "<%s> is in constants.voidElements (the tree walkers write it as an EmptyTag and report an error token if it has "
+                "children) but the parser handles its start tag with %s, which leaves it open: `<%s>x` gives the element a child, the "
+                "walker emits a SerializeError token, Lint rejects the stream and to_sax raises" % (name, h.qual, name),
+                {"element": name, "handler": h.qual}, detail={"element": name, "handler": h.qual, "how": how})
 
 
 def clark_names(ctx):
@@ -305,6 +346,7 @@ def mutants():
     B = "treewalkers/base.py"
     E = "treewalkers/etree.py"
     return [
+        T("void-adds-keygen-unhandled", "constants.py", "    \"wbr\",\n])", "    \"wbr\",\n    \"spacer\",\n])", "R11.7"),
         T("clark-greedy-walker", "treewalkers/etree.py", 'tag_regexp = re.compile("{([^}]*)}(.*)")', 'tag_regexp = re.compile("{(.*)}(.*)")', "R11.6"),
         T("clark-greedy-builder", "treebuilders/etree.py", 'tag_regexp = re.compile("{([^}]*)}(.*)")', 'tag_regexp = re.compile("{(.+)}(.*)")', "R11.6"),
         T("void-any-namespace", B, "                if (not namespace or namespace == namespaces[\"html\"]) and name in voidElements:\n                    for token in self.emptyTag(",
